@@ -288,3 +288,52 @@ Proof.
     apply G2; auto. }
   apply G; auto.
 Qed.
+
+(* ------------------------------------------------------------------------------------------ *)
+(** * What the entries of an index say: for every key, exactly the positions of the rows carrying it *)
+
+Lemma key_eqb_eq : forall a b, key_eqb a b = true <-> a = b.
+Proof.
+  induction a as [|x a IH]; destruct b as [|y b]; cbn [key_eqb]; split; intro H; try discriminate; auto.
+  - apply andb_true_iff in H. destruct H as [H1 H2]. apply IH in H2. subst.
+    destruct x as [u|], y as [v|]; try discriminate; auto. apply Z.eqb_eq in H1. subst. reflexivity.
+  - inversion H; subst. apply andb_true_iff. split; [|apply IH; reflexivity].
+    destruct y; auto. apply Z.eqb_refl.
+Qed.
+
+Lemma key_eqb_refl : forall a, key_eqb a a = true.
+Proof. intro a. apply key_eqb_eq. reflexivity. Qed.
+
+Definition dget (k : list value) (d : idata) : list nat := match dlookup k d with Some l => l | None => [] end.
+
+Lemma dget_dadd : forall key k i d, dget key (dadd k i d) = if key_eqb key k then dget key d ++ [i] else dget key d.
+Proof.
+  intros key k i d. unfold dget. induction d as [|[k' l] r IH]; cbn [dadd dlookup].
+  - destruct (key_eqb key k); reflexivity.
+  - destruct (key_eqb k k') eqn:E1.
+    + apply key_eqb_eq in E1. subst k'. cbn [dlookup]. destruct (key_eqb key k); reflexivity.
+    + cbn [dlookup]. destruct (key_eqb key k') eqn:E2.
+      * apply key_eqb_eq in E2. subst k'. destruct (key_eqb key k) eqn:E3; auto.
+        apply key_eqb_eq in E3. subst k. rewrite key_eqb_refl in E1. discriminate.
+      * exact IH.
+Qed.
+
+(** positions (counted from [i]) of the rows whose extracted key is [key] *)
+Fixpoint matching_positions (sc : tschema) (cols : list name) (key : list value) (rows : list row) (i : nat) : list nat :=
+  match rows with
+  | [] => []
+  | r :: rest =>
+      (match extract_key sc cols r with
+       | KOk k => if key_eqb key k then [i] else []
+       | _ => []
+       end) ++ matching_positions sc cols key rest (S i)
+  end.
+
+Lemma build_data_dget : forall sc cols key rows i acc d, build_data sc cols rows i acc = Some d ->
+  dget key d = dget key acc ++ matching_positions sc cols key rows i.
+Proof.
+  intros sc cols key rows. induction rows as [|r rest IH]; intros i acc d H; cbn [build_data matching_positions] in *.
+  - inversion H; subst. rewrite app_nil_r. reflexivity.
+  - destruct (extract_key sc cols r) as [k| |]; try discriminate.
+    rewrite (IH _ _ _ H). rewrite dget_dadd. destruct (key_eqb key k); [rewrite <- app_assoc|]; reflexivity.
+Qed.
